@@ -319,7 +319,16 @@ pub fn catalogue(rng: &mut Rng) -> Vec<Scenario> {
         let f = SemFilter { authors: vec![author(1)], ..SemFilter::empty() };
         v.push(Scenario { name: "remove-vs-find".into(), events: ev.clone(), filters: vec![f.clone()], prepopulate: vec![0, 1, 2, 3], ops: vec![Opk::Remove(id), Opk::Find(0)] });
         v.push(Scenario { name: "remove-vs-get".into(), events: ev.clone(), filters: vec![f.clone()], prepopulate: vec![0, 1, 2, 3], ops: vec![Opk::Remove(id), Opk::Get(id)] });
-        v.push(Scenario { name: "find-vs-remove".into(), events: ev, filters: vec![f], prepopulate: vec![0, 1, 2, 3], ops: vec![Opk::Find(0), Opk::Remove(id)] });
+        v.push(Scenario { name: "find-vs-remove".into(), events: ev.clone(), filters: vec![f.clone()], prepopulate: vec![0, 1, 2, 3], ops: vec![Opk::Find(0), Opk::Remove(id)] });
+        // a lookup parked between the index read and the read of the event bytes while the event is removed / replaced
+        v.push(Scenario { name: "get-vs-remove".into(), events: ev.clone(), filters: vec![f.clone()], prepopulate: vec![0, 1, 2, 3], ops: vec![Opk::Get(id), Opk::Remove(id)] });
+        v.push(Scenario { name: "has-vs-remove".into(), events: ev.clone(), filters: vec![f.clone()], prepopulate: vec![0, 1, 2, 3], ops: vec![Opk::Has(id), Opk::Remove(id)] });
+        let mut ev3 = ev.clone();
+        ev3.push(mk(rng, 0, 10002, 180, vec![]));
+        let holder = ev3[2].sem.id;
+        let n3 = ev3.len();
+        v.push(Scenario { name: "get-of-holder-vs-replacing-store".into(), events: ev3.clone(), filters: vec![f.clone()], prepopulate: vec![0, 1, 2, 3], ops: vec![Opk::Get(holder), Opk::Store(n3 - 1)] });
+        v.push(Scenario { name: "replacing-store-vs-get-of-holder".into(), events: ev3, filters: vec![f], prepopulate: vec![0, 1, 2, 3], ops: vec![Opk::Store(n3 - 1), Opk::Get(holder), Opk::Has(holder)] });
     }
     // S6: deletion request vs store of its target / read of its target
     {
@@ -707,7 +716,7 @@ pub fn classify_hang(rep: &mut Report, gdb_text: &str, what: &str) {
 
 pub fn leg_stress(rep: &mut Report, args: &Args) {
     install_handler();
-    let rounds = if args.thorough() { 120 } else { 10 };
+    let rounds = if args.thorough() { 600 } else { 10 };
     let nthreads = 8usize;
     for round in 0..rounds {
         let mut rng = Rng::new(args.seed() ^ 0x57E55 ^ (round as u64) << 20);
